@@ -2,6 +2,7 @@
 pub mod cluster;
 pub mod data;
 pub mod driver;
+pub mod explicit;
 pub mod kmeans;
 pub mod linear;
 pub mod out;
@@ -25,7 +26,7 @@ fn wrap<E: std::fmt::Debug + Clone + 'static>(
 macro_rules! subs {
     ($( ($name:literal, $m:ident, $quick:expr, $thorough:expr, $chunks:expr) ),* $(,)?) => {
         pub fn child_main(spec: &str) -> ! {
-            driver::child_main(spec, &[ $( ($name, child_entry::<$m::Cfg>) ),* ])
+            driver::child_main(spec, &[ $( ($name, child_entry::<$m::Cfg>) ),* , ("literal", child_entry::<explicit::Cfg>) ])
         }
         fn all_subs() -> Vec<Box<dyn vengine::SubCheck>> {
             vec![ $(
@@ -51,6 +52,23 @@ subs![
     ("preprocess", preprocess, 160, 2000, 8),
 ];
 
+fn literal_sub() -> Box<dyn vengine::SubCheck> {
+    vengine::enum_sub(
+        "literal",
+        |t: Tier| {
+            explicit::cases()
+                .into_iter()
+                .enumerate()
+                .map(|(i, est)| Case { est, rep_pool: (i % 6) as u8, children: t.pick(3u8, 6u8) })
+                .collect::<Vec<_>>()
+        },
+        |c: &Case<explicit::Cfg>, obs: &mut vengine::Obs| judge("literal", c, obs),
+    )
+    .chunks(4)
+}
+
 pub fn property() -> Property {
-    Property { id: "C20", rule: "", assumptions: vec![], subs: all_subs() }
+    let mut subs = all_subs();
+    subs.push(literal_sub());
+    Property { id: "C20", rule: "", assumptions: vec![], subs }
 }
